@@ -98,6 +98,7 @@ connect_mx(struct ips *mx, const struct in6_addr *outip4, const struct in6_addr 
 				/* something unexpected went wrong, assume that this is a local
 				 * problem that will eventually go away. */
 				daneinfo_free(d, tlsa);
+				write_status("Z4.4.2 error while waiting for the greeting of the remote server");
 				net_conn_shutdown(shutdown_abort);
 			}
 		}
